@@ -80,14 +80,14 @@ int main(int argc, char** argv)
     thorough = !strcmp(argv[2], "thorough"); seed = strtoull(argv[3], 0, 10);
     harness_init(argv[4], argv[5], seed);
     if (!strcmp(argv[1], "c04")) {
-        for (i = 0; i < (thorough ? 4000 : 500); i++) sparse_session(thorough);
+        for (i = 0; i < (thorough ? SH(4000) : 500); i++) sparse_session(thorough);
         harness_done();
         stat_u("calls", n_calls); stat_u("sparse_sessions", n_sparse); stat_u("sparse_bytes", n_sparse_bytes); stat_u("all_zero_buffers", n_allzero_bufs); stat_u("buffers_with_tail", n_tail);
         stat_u("records", g_nrecords); stat_u("cfails", (u64)g_cfails);
         return g_cfails ? 1 : 0;
     }
-    for (n = 0; n <= (thorough ? 7 : 6); n++) { for (i = 0; i < n; i++) a[i] = i; permute(a, 0, n); }
-    for (i = 0; i < (thorough ? 3000 : 300); i++) {
+    if (ONCE) for (n = 0; n <= (thorough ? 7 : 6); n++) { for (i = 0; i < n; i++) a[i] = i; permute(a, 0, n); }
+    for (i = 0; i < (thorough ? SH(3000) : 300); i++) {
         int j; n = 1 + (int)rndn(thorough ? 300 : 120);
         for (j = 0; j < n; j++) a[j] = j;
         if (rndp(30)) { for (j = 0; j < n / 2; j++) { int t = a[j]; a[j] = a[n - 1 - j]; a[n - 1 - j] = t; } }       /* reverse: everything is stored first */
